@@ -73,9 +73,11 @@ void kalign_free_msa(struct msa* msa)
                         }
                 }
 
-                for (i = msa->num_profiles;i--;){
-                        if(msa->sip[i]){
-                                MFREE(msa->sip[i]);
+                if(msa->sip){
+                        for (i = 0; i < msa->num_profiles;i++){
+                                if(msa->sip[i]){
+                                        MFREE(msa->sip[i]);
+                                }
                         }
                 }
                 if(msa->plen){
